@@ -91,18 +91,24 @@ Proof.
 Qed.
 
 (* the shipped likelihood and transition models return non-negative values *)
+Lemma gauss_lik_h_nonneg m (scale : R) v1 v2 v3 v4 (h : M O n 1 -> M O m 1) (R0 : M O m m) (y : M O m 1) ys i :
+  0 <= scale -> 0 <= nth i (snd (gauss_lik_h (O:=O) scale v1 v2 v3 v4 h R0 y ys)) 0.
+Proof.
+  intros Hs. unfold gauss_lik_h.
+  assert (Z : 0 <= nth i (snd (false, [s0 (sc O)])) 0) by (destruct i as [|[|i]]; cbn; lra).
+  destruct v1; [|exact Z]. destruct v2; [|exact Z]. destruct v3; [|exact Z]. destruct v4; [|exact Z].
+  cbn [negb snd].
+  destruct (Nat.lt_ge_cases i (length ys)) as [Hi|Hi].
+  - set (f := fun x : M O n 1 => smul (sc O) scale (density (lin_innovation (h x) y) (mzero m 1) R0)).
+    rewrite (nth_indep _ 0 (f (mzero n 1))) by (rewrite map_length; exact Hi).
+    rewrite (map_nth f). unfold f. cbn [smul sc O ListMat C08_ROps].
+    apply Rmult_le_pos; [exact Hs | apply Rlt_le; exact (density_pos m _ _ R0)].
+  - rewrite nth_overflow by (rewrite map_length; exact Hi). lra.
+Qed.
+
 Lemma gauss_lik_nonneg m (scale : R) (H : M O m n) (R0 : M O m m) (y : M O m 1) v ys i :
   0 <= scale -> 0 <= nth i (snd (gauss_lik (O:=O) scale v H R0 y ys)) 0.
-Proof.
-  intros Hs. unfold gauss_lik. destruct v; cbn [negb snd].
-  - destruct (Nat.lt_ge_cases i (length ys)) as [Hi|Hi].
-    + set (f := fun x : M O n 1 => smul (sc O) scale (density (lin_innovation (lin_predicted H x) y) (mzero m 1) R0)).
-      rewrite (nth_indep _ 0 (f (mzero n 1))) by (rewrite map_length; exact Hi).
-      rewrite (map_nth f). unfold f. cbn [smul sc O ListMat C08_ROps].
-      apply Rmult_le_pos; [exact Hs | apply Rlt_le; exact (density_pos m _ _ R0)].
-    + rewrite nth_overflow by (rewrite map_length; exact Hi). lra.
-  - destruct i as [|[|i]]; cbn; lra.
-Qed.
+Proof. apply gauss_lik_h_nonneg. Qed.
 
 Lemma lin_trans_nonneg (F Q : M O n n) ps cs i : 0 <= nth i (lin_trans (O:=O) F Q ps cs) 0.
 Proof.
